@@ -2,6 +2,24 @@
 // access to the three maps of MainEventLoop.
 #![allow(dead_code, unused_imports)]
 use super::*;
+// Named explicitly so that this probe does not depend on which names the parent file happens to import
+// (a clean-up of an unused import there must not break the hooked build).
+#[allow(unused_imports)]
+use crate::certificate::Certificate;
+#[allow(unused_imports)]
+use crate::storage::FileManager;
+#[allow(unused_imports)]
+use futures::stream::FuturesUnordered;
+#[allow(unused_imports)]
+use std::collections::HashMap;
+#[allow(unused_imports)]
+use crate::verif_probe::traced::RwLock;
+#[allow(unused_imports)]
+use crate::config;
+#[allow(unused_imports)]
+use crate::acme_proto::request_certificate;
+#[allow(unused_imports)]
+use tokio::time::sleep;
 use serde_json::{json, Value};
 use std::time::Duration;
 
